@@ -856,6 +856,12 @@ def install_finalize_probe():
     CountingInterpreter._verif_probe = True
 
 
+# model_memo_set: MemoizingInterpreter tests `p in self._patterns_for_memoization` on a Python set, i.e. by hash first.
+# BasicInterpreter.prop3 builds its conclusion with the notation bot() (an Instantiate object), so even the memoisation
+# set of a notation-free module contains Instantiate-bearing members; their hash differs from the hash of any expanded
+# pattern handed to pattern(), so they can never be hit.  The model's set is therefore the notation-free members.
+
+
 def build_module(mod, expanded=False):
     """mod = {'axs':[pat], 'proofs':[term], 'claims': None | [pat]}  (claims default: the advertised
     conclusions of the proofs).  expanded=True builds the notation-free twin."""
@@ -872,6 +878,7 @@ def build_module(mod, expanded=False):
         claims = [th.conc for th in thunks]
     else:
         claims = [P(c) for c in mod['claims']]
+    claims = claims + [P(c) for c in mod.get('claims_extra', [])]
     if expanded:
         claims = [expand(c) for c in claims]
     m = host.m
@@ -957,7 +964,7 @@ def run_module(mod):
         for opt in (False, True):
             r = serialize_real(mx, opt)
             if r.get('ok') and opt:
-                S = r.pop('S')
+                S = [p for p in r.pop('S') if not has_notation(p)]     # see model_memo_set
                 r['S'] = toks([len(S)] + [x for p in sorted(S, key=repr) for x in encx(p, sm)])
             res['twin']['opt' if opt else 'plain'] = r
         res['model'] = {
@@ -974,31 +981,120 @@ def run_module(mod):
 
 
 def gen_modules(seedstr, n, illformed=False):
+    """valid stream: 1-3 proofs over common axioms, claims = advertised conclusions.
+    illformed stream: the same plus ONE operand the toolkit accepts and the checker must reject (D9 family)"""
     install_reifier()
     rng = random.Random(seedstr)
     cases = gen_thunk_cases(seedstr + ':t', n * 3)
     mods = []
     i = 0
+    mv = lambda i, ef=(), sf=(), pos=(), neg=(), holes=(): ['mv', i, list(ef), list(sf), list(pos), list(neg), list(holes)]  # noqa: E731
+    botp = ['mu', 0, ['sv', 0]]
     while len(mods) < n and i < len(cases):
         k = rng.choice([1, 1, 2, 3])
         group = cases[i:i + k]
         i += k
-        axs = group[0]['axs']
-        proofs = [c['term'] for c in group if c['axs'] == axs]
-        mods.append({'axs': axs, 'proofs': proofs, 'claims': None})
+        axs = list(group[0]['axs'])
+        proofs = []
+        for c in group:
+            if c['axs'] != axs:
+                continue
+            if 'inst' in json.dumps(c['term']) and rng.random() < 0.9:
+                continue
+            try:
+                with time_limit(2.0):
+                    Host([mk_pat(a) for a in axs]).build(c['term'])
+            except (Exception, CaseTimeout):  # noqa: BLE001
+                if rng.random() < 0.9:
+                    continue
+            proofs.append(c['term'])
+        if not proofs:
+            continue
+        mod = {'axs': axs, 'proofs': proofs, 'claims': None}
+        if illformed:
+            x = rng.randrange(3)
+            kind = rng.choice(['mu', 'redundant-e', 'redundant-s', 'holes', 'capture', 'constraints', 'claims', 'fresh-drop'])
+            mod['ill'] = kind
+            if kind == 'mu':
+                ill = ['mu', x, rng.choice([['imp', ['sv', x], botp], ['imp', ['imp', ['sv', x], ['sv', x]], ['sv', x]],
+                                            ['app', ['sym', 's0'], ['imp', ['sv', x], ['ev', 0]]]])]
+                mod['proofs'] = proofs + [['dyn', ['p1'], [[rng.randrange(2), ill]]]]
+            elif kind == 'redundant-e':
+                ill = rng.choice([['es', mv(0), x, ['ev', x]], ['es', mv(1, ef=[x]), x, ['sym', 's1']]])
+                mod['proofs'] = proofs + [['dyn', ['p2'], [[rng.randrange(3), ill]]]]
+            elif kind == 'redundant-s':
+                ill = rng.choice([['ss', mv(0), x, ['sv', x]], ['ss', mv(1, sf=[x]), x, ['sym', 's1']]])
+                mod['proofs'] = proofs + [['dyn', ['p1'], [[rng.randrange(2), ill]]]]
+            elif kind == 'holes':
+                mod['proofs'] = proofs + [['dyn', ['p1'], [[0, mv(2, ef=[x], holes=[x])]]]]
+            elif kind == 'capture':
+                mod['proofs'] = proofs + [['dyn', ['q'], [[0, ['ex', 1, rng.choice([['ev', 0], ['app', ['ev', 0], ['sym', 's2']]])]]]]]
+            elif kind == 'constraints':
+                ax = rng.choice([mv(0, ef=[x]), ['imp', mv(0, sf=[x]), mv(1)], mv(0, pos=[x]), mv(0, neg=[x])])
+                plug = {'ef': ['ev', x], 'sf': ['sv', x]}
+                if ax[0] == 'mv' and ax[2]:
+                    pl = ['ev', x]
+                elif ax[0] == 'imp':
+                    pl = ['sv', x]
+                elif ax[0] == 'mv' and ax[4]:
+                    pl = ['imp', ['sv', x], botp]
+                else:
+                    pl = ['sv', x]
+                mod['axs'] = axs + [ax]
+                mod['proofs'] = proofs + [['dyn', ['ax', ax], [[0, pl]]]]
+            elif kind == 'fresh-drop':
+                # generator: MetaVar.apply_esubst drops the substitution when the variable is declared fresh;
+                # checker: keeps it (and rejects it as redundant already at construction)
+                ax = ['imp', ['es', mv(0), x, ['sym', 's0']], mv(1)]
+                mod['axs'] = axs + [ax]
+                mod['proofs'] = proofs + [['dyn', ['ax', ax], [[0, mv(3, ef=[x])]]]]
+            else:
+                mod['claims_extra'] = [['imp', ['sym', 'sX'], ['sym', 'sX']]]
+        mods.append(mod)
     return mods
 
 
+def gamma_axioms(m):
+    out = []
+    for sub in m._submodules:
+        out += gamma_axioms(sub)
+    return out + list(m._axioms)
+
+
 def shipped():
+    """the shipped modules through the real ProofExp.serialize, plus their reified (expanded) model encoding"""
+    install_reifier()
     from proof_generation.proofs.small_theory import SmallTheory
     from proof_generation.proofs.substitution import Substitution
+    from proof_generation.tautology import Tautology
     out = {}
-    for name, cls in (('propositional', Propositional), ('small_theory', SmallTheory), ('substitution', Substitution)):
+    for name, cls in (('propositional', Propositional), ('small_theory', SmallTheory), ('substitution', Substitution),
+                      ('tautology', Tautology)):
+        sm = SymMap()
         m = cls()
         out[name] = {'plain': serialize_real(m, False)}
         r = serialize_real(cls(), True)
-        r.pop('S', None)
+        S = r.pop('S', [])
+        r['S'] = toks([len(S)] + [x for p in sorted(S, key=repr) for x in encx(p, sm)])
+        r['S_notation'] = any(has_notation(p) for p in S)
         out[name]['opt'] = r
+        axs = gamma_axioms(m)
+        out[name]['model'] = {
+            'axs': toks([len(axs)] + [x for a in axs for x in encx(a, sm)]),
+            'claims': toks([len(m._claims)] + [x for a in m._claims for x in encx(a, sm)]),
+            'proofs': toks([len(m._proof_expressions)] + [x for th in m._proof_expressions for x in enc_term(th._pt, sm)]),
+        }
+        # the notation-free twin, through the same real entry point
+        host = Host([expand(a) for a in axs])
+        for c in m._claims:
+            host.m._claims.append(expand(c))
+        for th in m._proof_expressions:
+            host.m._proof_expressions.append(rebuild_expanded(host, th._pt))
+        out[name]['twin'] = {'plain': serialize_real(host.m, False)}
+        r = serialize_real(host.m, True)
+        S = [p for p in r.pop('S', []) if not has_notation(p)]
+        r['S'] = toks([len(S)] + [x for p in sorted(S, key=repr) for x in encx(p, sm)])
+        out[name]['twin']['opt'] = r
     return out
 
 
@@ -1027,8 +1123,12 @@ def main():
             ans = run_module(req['mod'])
         elif cmd == 'gen_modules':
             ans = []
-            for mspec in gen_modules(req['seed'], req['n']):
-                r = run_module(mspec)
+            for mspec in gen_modules(req['seed'], req['n'], bool(req.get('ill'))):
+                try:
+                    with time_limit(float(req.get('budget', 12.0))):
+                        r = run_module(mspec)
+                except CaseTimeout:
+                    r = {'built': False, 'timeout': True}
                 r['mod'] = mspec
                 ans.append(r)
         elif cmd == 'shipped':
